@@ -135,7 +135,7 @@ def _work(job):
         return EntryResult(a if isinstance(a, str) else a[0], b if isinstance(b, str) else "", error=f"{type(e).__name__}: {e}\n{traceback.format_exc()[-1500:]}")
 
 
-def all_paths(ctx, jobs: int = 16) -> dict[str, EntryResult]:
+def all_paths(ctx, jobs: int = int(os.environ.get("SA_JOBS", "16"))) -> dict[str, EntryResult]:
     """name -> EntryResult for every registered (non-marker) handler and the extra entries."""
     cached = getattr(ctx, "_paths", None)
     if cached is not None:
